@@ -30,7 +30,13 @@ def run(ctx):
     for sd in seeds:
         rc, out, dt = vlib.run_harness("gate", ["-seed", sd] + args, timeout=2400)
         if rc != 0:
-            return dict(findings=[dict(cls="harness-crash", key="gate rc=%d" % rc, detail=out[-1500:])], coverage={})
+            # the oracle lines printed before the crash come first: they carry the failing input
+            fs = []
+            for l in out.splitlines():
+                if l.startswith("V ") and len(l.split(None, 3)) > 2 and l.split(None, 3)[2] not in [f["cls"] for f in fs]:
+                    t = l.split(None, 3)
+                    fs.append(dict(cls=t[2], key=(t[3] if len(t) > 3 else "")[:300], detail=l[:800]))
+            return dict(findings=fs + [dict(cls="harness-crash", key="gate rc=%d" % rc, detail=out[-1500:])], coverage={})
         n, d, raw = vlib.run_model(out, timeout=2400)
         ncases += n
         diffs.extend(d[:10])
